@@ -23,9 +23,13 @@ MANIFEST = {
             "counters are exact after every step; capacity is checked before any initializer is "
             "written; reset re-establishes the invariant; all of it for every state reachable by "
             "the Stepper protocol (inv_reachable, induction over the op sequence); progress: a step "
-            "starts exactly min(vacancies, queued) tracks; liveness proved for outcomes that kill "
-            "every track in one step without secondaries (liveness_drain_partial); TrackStatus/"
-            "TrackOrder enumerators regenerated from Types.hh (enums_match_source).  Correspondence: the real "
+            "starts exactly min(vacancies, queued) tracks; conditional liveness with explicit "
+            "bound: if every track is killed within K of its own steps and at most S secondaries "
+            "are emitted, queued = alive = 0 after at most K*(slots+queued+S) calls "
+            "(liveness_bounded_partial, potential argument); the reindex_* track orders are shown "
+            "not to be consulted by the track-initialisation sources (reindex_orders_not_consulted) "
+            "and are run on the real code; TrackStatus/TrackOrder enumerators regenerated from "
+            "Types.hh (enums_match_source).  Correspondence: the real "
             "ExtendFromPrimaries/InitializeTracks/pre-step/InteractionApplier/tracking-cut/"
             "ExtendFromSecondaries actions and CoreState::reset on a CoreState built from "
             "SimpleTestBase with a scripted interactor, dumped after every action, exact diff.",
@@ -109,6 +113,51 @@ def gen_script(rng, n_steps, mode="stepper", starved=False):
     return out
 
 
+def gen_boundary_script(rng, n_tail=4):
+    """scripts that put the capacity requirement of ExtendFromPrimaries::insert and of
+    ExtendFromSecondaries exactly at capacity-1, capacity or capacity+1 (several times)"""
+    slots = rng.choice([1, 2, 3, 4, 6, 8, rng.range(1, 12)])
+    order = rng.choice([0, 1, 0, 1, 2, 3, 4, 5, 6, 7])
+    q = rng.choice([0, 0, 1, 2, rng.below(6)])          # queued after the first initialisation
+    kinds, counts = [], []
+    for _ in range(slots):
+        kinds.append(rng.choice("aaak"))
+        counts.append(rng.range(2, 4))
+    nsec = sum(c - (1 if (k == "k" and order != 1) else 0) for k, c in zip(kinds, counts))
+    d_efs = rng.choice([-1, 0, 0, 1])                    # requirement - capacity at the first efs
+    cap = q + nsec - d_efs
+    p0 = slots + q
+    while cap < p0:                                      # the first insert itself must fit
+        j = rng.below(slots)
+        counts[j] += 1
+        cap += 1
+    max_ev = rng.choice([1, 2, 3])
+    stack = 8 * slots * 12
+    lines = ["config %d %d %d %d %d" % (slots, cap, max_ev, order, stack)]
+    # insert at the boundary on the empty queue, then the one that fits
+    for d in rng.choice([[0], [1, 0], [1, -1], [-1]]):
+        n = cap + d
+        if 0 < n <= 120 and n != p0:
+            lines.append("insert " + " ".join(gen_primaries(rng, max_ev, n, p_out=10 ** 6)))
+            if d <= 0:
+                lines += ["reset"] if rng.chance(1, 2) else ["efp", "reset"]
+    lines.append("insert " + " ".join(gen_primaries(rng, max_ev, p0, p_out=10 ** 6)))
+    lines += ["efp", "init", "pre"]
+    lines.append("interact " + " ".join(k + "".join(rng.choice("ge") for _ in range(c))
+                                        for k, c in zip(kinds, counts)))
+    lines += ["cut", "efs", "recover"]
+    # mid-flight inserts at the boundary of the remaining room (queue length taken from a
+    # dry run is not available here: use the three sizes around every plausible remainder)
+    for _ in range(n_tail):
+        room = rng.choice([cap - q - nsec, cap - q, cap, rng.below(cap + 1)])
+        n = max(1, min(120, room + rng.choice([-1, 0, 1])))
+        lines.append("insert " + " ".join(gen_primaries(rng, max_ev, n, p_out=10 ** 6)))
+        lines += ["efp", "init", "pre"]
+        lines.append("interact " + " ".join(gen_spec(rng, 3) for _ in range(slots)))
+        lines += ["cut", "efs", "recover"]
+    return lines
+
+
 # --------------------------------------------------------------------------- dump parsing
 def parse(line):
     """-> dict(head, slots[list of None|dict], vac, inits, parents, c, t)"""
@@ -148,6 +197,7 @@ def oracle(script, out, stepper=True):
     pend_prims = []
     prev = None
     order = 0
+    capacity = 0
     n_ins = 0
     base = 0            # ids handed out before the last reset (their tracks were dropped)
     for i, (l, o) in enumerate(zip(script, out)):
@@ -155,17 +205,18 @@ def oracle(script, out, stepper=True):
         d = parse(o)
         if not d["ok"]:
             if o.startswith("exception"):
-                bad.append((i, "unexpected exception: " + o[:120]))
+                bad.append((i, "unexpected exception: " + o[:120], None))
             continue
         op = w[0]
         live = [(s["ev"], s["tid"]) for s in d["slots"] if s]
         nonin = sum(1 for s in d["slots"] if s)
 
-        def err(msg):
-            bad.append((i, f"{op}: {msg}"))
+        def err(msg, key=None):
+            bad.append((i, f"{op}: {msg}", key))
         if op == "config":
             created, started, finished, pend_prims, n_ins, base = {}, set(), set(), [], 0, 0
             order = int(w[4])
+            capacity = int(w[2])
         elif op in ("reset", "reseed", "recover"):
             if op == "recover" and d["head"] != "recover reset":
                 pass
@@ -181,9 +232,17 @@ def oracle(script, out, stepper=True):
         elif op == "insert":
             if d["head"] == "insert ok":
                 pend_prims = [int(x.split(":")[0]) for x in w[1:]]
-            if d["head"] == "insert error-capacity" and prev and \
-                    len(w) - 1 + prev["c"]["init"] <= 0:
-                err("capacity error without reason")
+            if prev and d["head"].startswith("insert "):
+                # ExtendFromPrimariesAction::insert: error <=> queued + primaries > capacity
+                need = len(w) - 1 + prev["c"]["init"]
+                if d["head"] == "insert error-capacity" and need <= capacity:
+                    err(f"capacity error although queued {prev['c']['init']} + {len(w) - 1} "
+                        f"primaries = {need} <= capacity {capacity}",
+                        "capacity-error-without-overflow")
+                if d["head"] != "insert error-capacity" and need > capacity:
+                    err(f"no capacity error although queued {prev['c']['init']} + {len(w) - 1} "
+                        f"primaries = {need} > capacity {capacity}",
+                        "capacity-overflow-not-detected")
         elif op == "efp":
             for e in pend_prims:
                 created[e] = created.get(e, 0) + 1
@@ -237,14 +296,24 @@ def oracle(script, out, stepper=True):
             if "FAILED-NOT-NOOP" in d["head"]:
                 err("failed interaction changed the track: " + d["head"])
         elif op == "efs" and prev:
+            # ExtendFromSecondariesAction: error <=> queued + new secondaries > capacity
+            need = prev["c"]["init"]
+            for a in prev["slots"]:
+                if a is not None:
+                    nv = sum(1 for ch in a["secs"] if ch != "x")
+                    need += nv - (1 if (a["st"] != "a" and nv and order != 1) else 0)
             if d["head"] != "efs ok":
+                if need <= capacity:
+                    err(f"capacity error although queued {prev['c']['init']} + new secondaries "
+                        f"= {need} <= capacity {capacity}", "capacity-error-without-overflow")
                 # capacity error: no initializer written, no slot changed
                 if d["slots"] != prev["slots"]:
                     err("slots changed by a failed capacity check")
-                if d["c"]["init"] <= len(d["t"]) * 0 + 0:
-                    pass
                 prev = d
                 continue
+            if need > capacity:
+                err(f"no capacity error although queued {prev['c']['init']} + new secondaries "
+                    f"= {need} > capacity {capacity}", "capacity-overflow-not-detected")
             nsec = 0
             for k, (a, b) in enumerate(zip(prev["slots"], d["slots"])):
                 if a is None:
@@ -348,8 +417,10 @@ def run_all(ctx, exe, scripts, modes, model_ok, key_prefix=""):
             bad = [x for x in bad if "another position" not in x[1]]
         if bad and n_bad < 4:
             n_bad += 1
-            i, msg = bad[0]
-            ctx.violation(key_prefix + "oracle:" + msg.split(":")[0],
+            # a capacity-boundary failure is the most specific diagnosis: report it first
+            bad.sort(key=lambda x: (x[2] is None, x[0]))
+            i, msg, key = bad[0]
+            ctx.violation(key if key else key_prefix + "oracle:" + msg.split(":")[0],
                           "real track-initialisation actions: " + msg,
                           {"harness": "harness/trackinit.cc", "mode": mode, "ops": s[:i + 1],
                            "impl": oh[a:b][i - 1:i + 1],
@@ -373,10 +444,13 @@ def run(ctx):
         "sequential execution of kernel loops (OpenMP event-level build); std::stable_partition, "
         "std::remove_if, std::exclusive_scan modelled by their specification",
         "32-bit overflow of counters/track ids not modelled (needs > 4e9 tracks per event)",
-        "progress: per-step progress is proved for every outcome; liveness is proved only for "
-        "the case K = 1 without secondaries (every track killed in its first step): the general "
-        "'dies within K steps, finitely many secondaries' statement and the fact that real "
-        "physics satisfies it are not proved",
+        "progress: per-step progress is proved for every outcome; liveness is proved "
+        "conditionally (every track killed within K of its own steps, at most S secondaries, no "
+        "failing Stepper call, no new primaries) with the bound K*(slots+queued+S); that real "
+        "physics satisfies the hypotheses is outside the model",
+        "reindex_* track orders: modelled as one constructor `reindex` taking the branches of "
+        "`none`; justified by the regenerated list of TrackOrder enumerators compared in the "
+        "track-initialisation sources (only init_charge) and zero uses of `track_slots` there",
         "fill_sequence over `indices` is modelled as range(number of track slots): the indices "
         "collection is resized to the number of track slots in TrackInitData.hh",
         "reseed (track counters zeroed) is only claimed at idle states (no live or pending "
@@ -401,8 +475,12 @@ def run(ctx):
     n_corpus = len(scripts)
     for k in range(n_scripts):
         mode = "manual" if k % 5 == 4 else "stepper"
-        scripts.append(gen_script(ctx.rng, ctx.rng.range(3, n_steps), mode=mode,
-                                  starved=(k % 11 == 10)))
+        if k % 4 == 1:
+            mode = "stepper"
+            scripts.append(gen_boundary_script(ctx.rng))
+        else:
+            scripts.append(gen_script(ctx.rng, ctx.rng.range(3, n_steps), mode=mode,
+                                      starved=(k % 11 == 10)))
         modes.append(mode)
     scripts.append(["config 2 4 1 0 8", "frob", "insert 0:0", "insert 5:0:1", "interact a",
                     "efp", "", "config 0 1 1 0 1", "init"])
